@@ -18,11 +18,42 @@ TRUSTED_BASE = ["hand model of qref.verification.verify_topology (package outsid
 ASSUMPTIONS = ["termination and exceptions inside sympy are not modelled: per-case time limit, exception class observed"]
 
 
+def float_sizes(rng, r):
+    """A well-formed variation: the size flowing into a constant-sized child port is a FLOAT (0.5*N, or the literal 1.5) --
+    neither equal to nor an integer away from the constant, so the comparison must come out undecided, not crash."""
+    for n, _ in H._nodes(r):
+        for c in n["connections"]:
+            if "." not in c[1]:
+                continue
+            tgt_child = next((ch for ch in n["children"] if ch["name"] == c[1].split(".")[0]), None)
+            if tgt_child is None:
+                continue
+            tp = next((p for p in tgt_child["ports"] if p["name"] == c[1].split(".")[1] and p["direction"] == "input"), None)
+            if "." in c[0]:
+                owner = next((ch for ch in n["children"] if ch["name"] == c[0].split(".")[0]), None)
+                sp = next((p for p in (owner["ports"] if owner else []) if p["name"] == c[0].split(".")[1]), None)
+                ok = owner is not None and not owner["children"] and sp is not None and sp["direction"] == "output"
+            else:
+                owner, sp = n, next((p for p in n["ports"] if p["name"] == c[0]), None)
+                ok = n is r and sp is not None and sp["direction"] == "input"
+            if tp is None or not ok or rng.random() < 0.5:
+                continue
+            tp["size"] = E.num(2)
+            if owner["input_params"] and rng.random() < 0.7:
+                sp["size"] = E.op("mul", ["n", 1, 2, "float"], E.sym(owner["input_params"][0]))
+            else:
+                sp["size"] = ["n", 3, 2, "float"]
+            return True
+    return False
+
+
 def gen_cases(rng, n_valid, n_fault):
     out = []
     while len(out) < n_valid:
         r = H.gen_hierarchy(rng, max_depth=rng.randint(1, 3), p_rep=0.35, p_through=0.2)
         if H.count_nodes(r) <= 10:
+            if rng.random() < 0.3:
+                float_sizes(rng, r)
             out.append({"routine": r, "faulted": False, "seed": rng.randint(0, 10**9)})
     k = 0
     tries = 0
